@@ -360,3 +360,56 @@ func isModuleKey(k string) bool {
 	}
 	return false
 }
+
+// R-iterator-end-marker (C08, C11): the merge adapter turns exactly sstables.Done into the queue's end marker. An
+// implementation of the table iterator that ends with another package's marker of the same text (skiplist.Done, pq.Done)
+// is not recognised: a scan or merge over it fails with "no more items" instead of ending.
+func ruleIteratorEndMarker(r *Report) {
+	const rule = "iterator-end-marker"
+	r.Rule(rule, 4, "no implementation of the table iterator's Next ([]byte, []byte, error) in packages sstables and memstore returns another package's end marker (skiplist.Done, pq.Done) as it is: the end is sstables.Done")
+	p := r.P
+	n := 0
+	for _, fn := range p.ModuleFuncs() {
+		pk := fnPkg(fn)
+		if pk == nil || fn.Blocks == nil || fn.Name() != "Next" || fn.Signature.Recv() == nil || fn.Parent() != nil {
+			continue
+		}
+		if sp := shortPkg(pk.Path()); sp != "sstables" && sp != "memstore" {
+			continue
+		}
+		res := fn.Signature.Results()
+		if res.Len() != 3 || typeShort(res.At(0).Type()) != "[]byte" || typeShort(res.At(1).Type()) != "[]byte" || !isErrorType(res.At(2).Type()) {
+			continue
+		}
+		// the adapter towards the priority queue speaks the queue's language on purpose
+		if ms := p.SSA.MethodSets.MethodSet(fn.Signature.Recv().Type()); ms.Lookup(pk, "Context") != nil {
+			continue
+		}
+		n++
+		r.Saw(fn)
+		key := rule + "/" + FuncKey(fn)
+		var foreign []string
+		for _, rs := range returnsOf(fn) {
+			ret := rs.Instr.(*ssa.Return)
+			cands := []ssa.Value{ret.Results[2]}
+			if k, vals := returnErrOperand(ret, 2); k == "val" {
+				cands = append(cands, vals...)
+			}
+			for _, v := range cands {
+				if g := globalLoad(v); g == "skiplist.Done" || g == "pq.Done" {
+					foreign = append(foreign, g)
+				}
+			}
+		}
+		foreign = uniqStrings(foreign)
+		sort.Strings(foreign)
+		if len(foreign) > 0 {
+			r.Bad(rule, key, fn.Pos(), "this table iterator can end with "+strings.Join(foreign, ", ")+" instead of sstables.Done: the merge adapter translates only sstables.Done, so a stacked scan or a merge over it fails (\"couldn't fill next heap entry: no more items in iterator\") instead of returning the union")
+		} else {
+			r.OK(rule, key, fn.Pos(), "ends with sstables.Done only")
+		}
+	}
+	if n == 0 {
+		r.Missing(rule, rule+"/none", "no table iterator implementation found")
+	}
+}
